@@ -391,6 +391,8 @@ class Interp:
         if n in ('Result::is_ok', 'Result::is_err'):
             r0 = args[0] if isinstance(args[0], Enum) else st.load(args[0])
             return cont(st, (r0.variant == 'Ok') == n.endswith('is_ok'))
+        if n == 'compiler_fence' or n.endswith('::compiler_fence'):
+            return cont(st, Opaque('unit'))     # orders nothing between threads: no event
         if n == 'fence' or n.endswith('::fence'):
             st.ev(kind='F', ord=args[0][1]); return cont(st, Opaque('unit'))
         if n.endswith('Atomic::new'): return cont(st, Struct('Atomic', [args[0]]))
